@@ -291,6 +291,12 @@ def copy(rc):
 
 _BN_ADD = '        if u in self.nodes() and v in self.nodes() and nx.has_path(self, v, u):\n            raise ValueError(\n                "Loops are not allowed. Adding the edge from (%s->%s) forms a loop."'
 
+
+@rule("C15.defuse", "anchored files: every parameter is read, no value is computed and dropped (generic def-use detectors, triaged hit list)", floor=2)
+def defuse(rc):
+    from . import shared as _sh
+    _sh.defuse_rule(rc, _sh.anchor_files("C15"))
+
 MUTANTS = [
     dict(kind="break", name="bn-path-check-wrong-direction", file=BN, expect="C15.guard",
          old=_BN_ADD, new=_BN_ADD.replace("nx.has_path(self, v, u)", "nx.has_path(self, u, v)")),
